@@ -106,6 +106,9 @@ struct FnRec {
     impl_type: Option<String>,
     impl_generics: String,
     impl_self_ty: String,
+    /// where-clause of the enclosing impl block and its associated-type items (verbatim)
+    impl_where: String,
+    impl_assoc: Vec<String>,
     trait_name: Option<String>,
     in_trait_decl: bool,
     vis: String,
@@ -176,6 +179,8 @@ fn collect_items(items: &[Item], file: &str, module: &str, c: &mut Collected) {
                     impl_type: None,
                     impl_generics: String::new(),
                     impl_self_ty: String::new(),
+                    impl_where: String::new(),
+                    impl_assoc: vec![],
                     trait_name: None,
                     in_trait_decl: false,
                     vis: clean(&ts(&f.vis)),
@@ -215,6 +220,12 @@ fn collect_items(items: &[Item], file: &str, module: &str, c: &mut Collected) {
                         impl_self_ty: pretty_type(&im.self_ty),
                     });
                 }
+                let impl_where = im.generics.where_clause.as_ref().map(|w| clean(&ts(w))).unwrap_or_default();
+                let impl_assoc: Vec<String> = im
+                    .items
+                    .iter()
+                    .filter_map(|ii| if let ImplItem::Type(t) = ii { Some(format!("type {} = {};", t.ident, pretty_type(&t.ty))) } else { None })
+                    .collect();
                 for ii in &im.items {
                     if let ImplItem::Fn(f) = ii {
                         if is_cfg_test(&f.attrs) {
@@ -227,6 +238,8 @@ fn collect_items(items: &[Item], file: &str, module: &str, c: &mut Collected) {
                             impl_type: Some(tname.clone()),
                             impl_generics: clean(&ts(&im.generics)),
                             impl_self_ty: pretty_type(&im.self_ty),
+                            impl_where: impl_where.clone(),
+                            impl_assoc: impl_assoc.clone(),
                             trait_name: trait_name.clone(),
                             in_trait_decl: false,
                             vis: clean(&ts(&f.vis)),
@@ -261,6 +274,8 @@ fn collect_items(items: &[Item], file: &str, module: &str, c: &mut Collected) {
                                 impl_type: Some(t.ident.to_string()),
                                 impl_generics: String::new(),
                                 impl_self_ty: t.ident.to_string(),
+                                impl_where: String::new(),
+                                impl_assoc: vec![],
                                 trait_name: Some(t.ident.to_string()),
                                 in_trait_decl: true,
                                 vis: String::new(),
@@ -1295,6 +1310,7 @@ fn main() {
         out_fns.push(json!({
             "key": f.key, "name": f.sig.ident.to_string(), "file": f.file, "module": f.module,
             "impl_type": f.impl_type, "impl_generics": f.impl_generics, "impl_self_ty": f.impl_self_ty,
+            "impl_where": f.impl_where, "impl_assoc": f.impl_assoc,
             "trait": f.trait_name, "in_trait_decl": f.in_trait_decl, "vis": f.vis,
             "generics": clean(&ts(&f.sig.generics.params)),
             "where": f.sig.generics.where_clause.as_ref().map(|w| clean(&ts(w))),
